@@ -1,5 +1,5 @@
 CONSTANTS Alphabet = {97, 98} MaxLen = 5 MaxDatas = {1, 2, 3} WeakM = 65536
-          SwallowSendBlockError = FALSE Faults = FALSE
+          SwallowSendBlockError = FALSE Faults = FALSE OpReset = "whole"
 CONSTANT Want = {"C19_Reconstructs", "C19_RealPatchExact", "C19_WellFormed", "C19_UnchangedNoLiterals", "Conforms"}
 SPECIFICATION TSpec
 CHECK_DEADLOCK FALSE
